@@ -173,19 +173,28 @@ Fixpoint counts_natural (fuel : nat) (rho : string -> Q) (t : ctree expr) : bool
 
 (* The symbolic backend decides more equalities than the polynomial normal form of Compare.v does (Max(N + 2, N) - N is 2
    to sympy, an atom minus N to the model).  When the code rejects a constraint the model retains as UNDECIDED, the two
-   agree as far as the model can tell provided the two sides of some retained undecided constraint differ at every sample
-   point: C06 lets compilation fail exactly when the sizes differ for every assignment. *)
+   agree as far as the model can tell provided the two sides of some retained undecided constraint differ BY ONE AND THE SAME
+   non-zero amount at every sample point: C06 lets compilation fail exactly when the sizes differ for every assignment, and
+   the backend says `unequal` exactly when the difference is a non-zero number. *)
+Definition const_nonzero_difference (pts : list (string -> Q)) (l r : expr) : bool :=
+  let ds := map (fun rho => match evalQ rho l, evalQ rho r with
+                            | Some a, Some b => Some (Qred (a - b))
+                            | _, _ => None
+                            end) pts in
+  match ds with
+  | Some d :: rest => negb (Qeq_bool d 0) && forallb (fun x => match x with Some d' => Qeq_bool d d' | None => false end) rest
+  | _ => false
+  end.
+
+(* (the sample points are laid over four default environments that give every name another value, so that "differ" means:
+   by the SAME non-zero amount everywhere sampled -- which is what the backend's verdict `unequal` says) *)
 Fixpoint undecided_but_violated (fuel : nat) (pts : list (string -> Q)) (t : ctree expr) : bool :=
   match fuel with
   | O => false
   | S f =>
+      let pts' := (pts ++ [dfltQ 1; dfltQ 2; dfltQ 3; dfltQ 5])%list in
       existsb (fun c => match snd c with
-                        | CInconclusive =>
-                            negb (Nat.eqb (List.length pts) 0)
-                            && forallb (fun rho => match evalQ rho (fst (fst c)), evalQ rho (snd (fst c)) with
-                                                   | Some a, Some b => negb (Qeq_bool a b)
-                                                   | _, _ => false
-                                                   end) pts
+                        | CInconclusive => const_nonzero_difference pts' (fst (fst c)) (snd (fst c))
                         | _ => false
                         end) (ct_constraints t)
       || existsb (undecided_but_violated f pts) (ct_children t)
